@@ -36,6 +36,7 @@ type Config struct {
 	Trace        bool
 	MaxViolations int
 	Params        map[string]int
+	Pinned        []Decision // replay: follow exactly these decisions
 }
 
 func (c *Config) initAllowed(path string) bool {
@@ -113,6 +114,13 @@ type Violation struct {
 	Inputs   []ReplayInput
 	Trace    []string
 	Panic    string
+	Decisions []Decision
+}
+
+// Decision is the exported form of one recorded decision (schedule replay).
+type Decision struct {
+	K int   `json:"k"`
+	V int64 `json:"v"`
 }
 
 type ReplayInput struct {
@@ -246,6 +254,13 @@ func Explore(prog *ssa.Program, entry *ssa.Function, cfg *Config, sizes types.Si
 	ex.cond = sync.NewCond(&ex.mu)
 	ex.res = &Result{Harness: entry.Name(), Covers: map[string]int64{}, Asserts: map[string]int64{}, ConcLoss: map[string]int64{}}
 	ex.work = [][]decision{nil}
+	if len(cfg.Pinned) > 0 {
+		var pre []decision
+		for _, d := range cfg.Pinned {
+			pre = append(pre, decision{K: decisionKind(d.K), V: d.V})
+		}
+		ex.work = [][]decision{pre}
+	}
 	var wg sync.WaitGroup
 	for w := 0; w < cfg.Workers; w++ {
 		wg.Add(1)
@@ -1086,6 +1101,9 @@ func (i *interpreter) recordViolation(id, msg string, model map[string]uint64) {
 	}
 	v.Inputs = i.inputsFromModel(model)
 	v.Trace = append([]string(nil), p.notes...)
+	for _, d := range p.trace {
+		v.Decisions = append(v.Decisions, Decision{K: int(d.K), V: d.V})
+	}
 	p.violations = append(p.violations, v)
 }
 
